@@ -32,7 +32,7 @@ KINDS = ["req", "dflt", "fact", "das", "noinit", "initvar", "initvar_d", "nested
 
 
 def gen_spec(rng: random.Random) -> dict:
-    case = rng.choice([1, 1, 1, 2, 2, 3, 4])
+    case = rng.choice([1, 1, 1, 2, 2, 3, 4, 5])
     counter = [0]
 
     def fname():
@@ -41,7 +41,7 @@ def gen_spec(rng: random.Random) -> dict:
 
     def gen_fields(n: int, allow_required: bool, allow_nested: bool) -> List[dict]:
         fs = []
-        kinds_pool = ["dflt", "dflt", "fact", "das", "noinit", "initvar_d"]
+        kinds_pool = ["dflt", "dflt", "fact", "das", "noinit", "initvar_d", "kwonly", "kwreq"]
         if allow_nested:
             kinds_pool.append("nested")
         n_req = rng.randint(0, min(2, n)) if allow_required else 0
@@ -61,27 +61,35 @@ def gen_spec(rng: random.Random) -> dict:
         classes.append({"name": "K0", "base": None, "decorated": True,
                         "fields": gen_fields(rng.randint(1, 5), True, True)})
     else:
-        base_dec = case in (2, 4)
+        base_dec = case in (2, 4, 5)
         sub_dec = case in (2, 3)
         bf = gen_fields(rng.randint(1, 3), True, False)
         base_has_default = any(f["kind"] not in ("req", "initvar") for f in bf)
         classes.append({"name": "K0", "base": None, "decorated": base_dec, "fields": bf})
-        classes.append({"name": "K1", "base": "K0", "decorated": sub_dec,
-                        "fields": gen_fields(rng.randint(0, 3), not base_has_default, sub_dec)})
+        if case == 5:
+            # undecorated @dataclass(init=False) child with a hand-written __init__ that assigns
+            # its own fields *before* calling the (patched) base __init__
+            own = [{"name": fname(), "kind": "dflt", "alias": None} for _ in range(rng.randint(1, 2))]
+            classes.append({"name": "K1", "base": "K0", "decorated": False, "fields": own, "handwritten": True})
+        else:
+            classes.append({"name": "K1", "base": "K0", "decorated": sub_dec,
+                            "fields": gen_fields(rng.randint(0, 3), not base_has_default, sub_dec)})
     # __post_init__ on the most derived class
     top = classes[-1]
     allf = [f for c in classes for f in c["fields"]]
     has_iv = any(f["kind"] in ("initvar", "initvar_d") for f in allf)
     assignable = [f["name"] for f in allf if f["kind"] in ("dflt", "fact", "das", "noinit", "req")]
     post = None
+    if top.get("handwritten"):
+        top = classes[0]  # __post_init__ (if any) belongs to the dataclass-generated __init__ of K0
     if has_iv or rng.random() < 0.3:
         assigns = []
         if assignable and rng.random() < 0.5:
             assigns = rng.sample(assignable, 1)
         post = {"assigns": assigns}
-    top["post_init"] = post
-    for c in classes[:-1]:
+    for c in classes:
         c["post_init"] = None
+    top["post_init"] = post
     return {"case": case, "classes": classes}
 
 
@@ -110,7 +118,7 @@ def render(spec: dict) -> str:
     for c in spec["classes"]:
         if c["decorated"]:
             lines.append("@with_fields_set")
-        lines.append("@dataclass")
+        lines.append("@dataclass(init=False)" if c.get("handwritten") else "@dataclass")
         lines.append("class %s%s:" % (c["name"], "(%s)" % c["base"] if c["base"] else ""))
         body = []
         for f in c["fields"]:
@@ -138,6 +146,15 @@ def render(spec: dict) -> str:
                 body.append("%s: InitVar[int] = 3" % n)
             elif k == "nested":
                 body.append("%s: Optional[%r] = field(default=None%s)" % (n, c["name"], mds))
+            elif k == "kwonly":
+                body.append("%s: int = field(default=0, kw_only=True%s)" % (n, mds))
+            elif k == "kwreq":
+                body.append("%s: int = field(kw_only=True%s)" % (n, mds))
+        if c.get("handwritten"):
+            body.append("def __init__(self, *args, **kw):")
+            for f in c["fields"]:
+                body.append("    self.%s = kw.pop(%r, 0)" % (f["name"], f["name"]))
+            body.append("    super().__init__(*args, **kw)")
         if c.get("post_init") is not None:
             ivs = [f["name"] for f in all_fields(spec, c["name"]) if f["kind"] in ("initvar", "initvar_d")]
             body.append("def __post_init__(self%s):" % "".join(", " + i for i in ivs))
@@ -163,12 +180,24 @@ class Shape:
         self.by_name = {f["name"]: f for f in self.fields}
         self.initvars = {f["name"] for f in self.fields if f["kind"] in ("initvar", "initvar_d")}
         self.real = [f["name"] for f in self.fields if f["name"] not in self.initvars]
-        self.init_params = [f["name"] for f in self.fields if f["kind"] != "noinit"]
-        self.required = [f["name"] for f in self.fields if f["kind"] in ("req", "initvar")]
+        self.handwritten = bool(by[cname].get("handwritten"))
+        self.own = [f["name"] for f in by[cname]["fields"]] if self.handwritten else []
+        kw_kinds = ("kwonly", "kwreq")
+        # positional order of the generated __init__: ordinary parameters first, keyword-only after
+        self.pos_params = [f["name"] for f in self.fields
+                           if f["kind"] != "noinit" and f["kind"] not in kw_kinds and f["name"] not in self.own]
+        self.init_params = self.pos_params + [f["name"] for f in self.fields if f["kind"] in kw_kinds] + self.own
+        self.required = [f["name"] for f in self.fields if f["kind"] in ("req", "initvar", "kwreq")]
         self.always = {f["name"] for f in self.fields if f["kind"] in ("das", "noinit")}
         self.nested = {f["name"] for f in self.fields if f["kind"] == "nested"}
-        top = spec["classes"][-1]
-        self.post_assigns = set(top["post_init"]["assigns"]) if (top.get("post_init") and cname == top["name"]) else set()
+        # the __post_init__ that runs for this class: its own, or the inherited one when the class
+        # keeps (or delegates to) the base's generated __init__
+        pi = None
+        c_ = by[cname]
+        while c_ is not None and pi is None:
+            pi = c_.get("post_init")
+            c_ = by[c_["base"]] if c_["base"] else None
+        self.post_assigns = set(pi["assigns"]) if pi else set()
         # an undecorated class is "supported" (tracked) only through a decorated base
         chain = []
         c = by[cname]
@@ -232,9 +261,9 @@ def gen_ops(rng: random.Random, spec: dict, n: int) -> List[list]:
             chosen = set(sh.required) | {p for p in opt if rng.random() < 0.45}
             if rng.random() < 0.5:
                 # positional prefix
-                npos = rng.randint(0, len(sh.init_params))
-                pos = sh.init_params[:npos]
-                kw = [p for p in sh.init_params[npos:] if p in chosen]
+                npos = rng.randint(0, len(sh.pos_params))
+                pos = sh.pos_params[:npos]
+                kw = [p for p in sh.init_params if p not in pos and p in chosen]
                 pv = values(sh, pos, False)
                 ops.append(["new", cn, [pv[p] for p in pos], values(sh, kw, False)])
             else:
@@ -299,6 +328,13 @@ def child_run(plan: dict) -> dict:
         if sh.decorated:
             s = (set(passed) - sh.initvars) | sh.always
             inst = Inst(sh, s, set(sh.post_assigns), obj)
+        elif sh.handwritten:
+            # own fields are assigned before the patched base __init__ runs: the ones passed must
+            # be in the set (attribute assignment adds; keys present are set), the defaulted ones
+            # are don't-care; the base part follows the constructor rule
+            own = set(sh.own)
+            s = ((set(passed) - own) - sh.initvars) | sh.always | (set(passed) & own)
+            inst = Inst(sh, s, set(sh.post_assigns) | (own - set(passed)), obj)
         else:
             # undecorated subclass of a decorated base: documentation silent -> adopt
             inst = Inst(sh, set(fields_set(obj)), set(), obj)
@@ -400,7 +436,7 @@ def child_run(plan: dict) -> dict:
                 kwv = {k: (build_nested(sh, v["$nested"]) if isinstance(v, dict) and "$nested" in v else v)
                        for k, v in kw.items()}
                 obj = cls(*pos, **kwv)
-                passed = set(sh.init_params[: len(pos)]) | set(kw)
+                passed = set(sh.pos_params[: len(pos)]) | set(kw)
                 inst = model_construct(sh, passed, obj)
                 slots.append(inst)
                 check(inst, what)
@@ -504,7 +540,7 @@ def child_run(plan: dict) -> dict:
                     kw.setdefault(r_, op[3])
                 prev = set(inst.set)
                 inst.obj.__init__(**kw)
-                if sh.decorated:
+                if sh.decorated and not sh.handwritten:
                     passed = (set(kw) - sh.initvars) | sh.always
                     # previously-set fields across a second __init__: documentation silent
                     inst.dontcare = (inst.dontcare | (prev - passed) | sh.post_assigns) - set()
